@@ -237,9 +237,10 @@ structure Cfg.WF (c : Cfg) : Prop where
 
   * `Ctor`: the constructor call with the SPELLING of every numeric argument (`NumForm`: python
     int / float, numpy scalar types, 0-d ndarray, tf constant / variable).  The anchored code
-    looks at values only (`Ctor.cfg`); the spelling matters in exactly one place of the unchanged
-    code, python's `2**self._min_exp` / `2**self._max_exp` in `min()/max()` when `bits` is a numpy
-    integer (`qminForm`, `qmaxForm`: recorded finding `C03-numpy-int-bits`).
+    looks at values only (`Ctor.cfg`); the spelling used to matter in exactly one place, python's
+    `2**self._min_exp` / `2**self._max_exp` in `min()/max()` when `bits` is a numpy integer
+    (former finding `C03-numpy-int-bits`, repaired in the fix round: `min()/max()` convert the
+    exponent with `int()`; `qminForm`, `qmaxForm` are now independent of the spelling).
   * `use_stochastic_rounding` and `K.learning_phase()` (`RawAdmS`): the "floor" branch is tested
     first, then the stochastic branch, which rounds to nearest in the inference phase.
   * `Obj`: a quantizer object = the exponent range cached by `__init__` plus the attributes that
@@ -253,14 +254,6 @@ inductive NumForm where
   | pyInt | pyFloat | npFloat16 | npFloat32 | npFloat64 | npInt32 | npInt64
   | ndarrayInt | ndarrayFloat | tfConstant | tfVariable
 deriving Repr, DecidableEq
-
-/-- bit width of the numpy integer type the cached exponents `_min_exp/_max_exp` end up in when
-    `bits` has this spelling (`none`: python int / float or numpy float: unbounded resp. float) -/
-def NumForm.npIntWidth : NumForm → Option Nat
-  | .npInt32 => some 32
-  | .npInt64 => some 64
-  | .ndarrayInt => some 64
-  | _ => none
 
 structure Num where
   form : NumForm
@@ -293,22 +286,23 @@ def Ctor.SameValues (k k' : Ctor) : Prop :=
   k.negSlope.val = k'.negSlope.val ∧ k.stochastic = k'.stochastic ∧ k.quad = k'.quad ∧
   k.floorMode = k'.floorMode
 
-/-- `max()` as python evaluates it: `2**self._max_exp` with a numpy integer `_max_exp` of width `w`
-    wraps around (`2**(w-1)` is negative, larger powers are 0), so `max(1.0, ·)` is `1.0` -/
-def qmaxForm (bf : NumForm) (c : Cfg) : Rat :=
+/-- `max()` as python evaluates it: `max(1.0, 2**int(self._max_exp))`.  The cached exponent is
+    converted to a python int before the power is taken (fix round: with a numpy integer `bits`
+    of width `w` the power used to be taken in `w`-bit arithmetic and wrapped around for
+    `_max_exp ≥ w - 1`, so that `max()` was `1.0`), hence the spelling `_bf` of `bits` does not
+    matter any more; the parameter is kept so that the theorems can say so -/
+def qmaxForm (_bf : NumForm) (c : Cfg) : Rat :=
   match truthy c.maxValue with
   | some m => rmax 1 m
-  | none =>
-    match bf.npIntWidth with
-    | some w => if (w : Int) - 1 ≤ c.maxExp then 1 else rmax 1 (pow2 c.maxExp)
-    | none => rmax 1 (pow2 c.maxExp)
+  | none => rmax 1 (pow2 c.maxExp)
 
-/-- `min()` as python evaluates it; `none` = `ValueError: Integers to negative integer powers are
-    not allowed` (`2**self._min_exp` with a numpy integer `_min_exp`) -/
+/-- `min()` as python evaluates it: `2**int(self._min_exp)` for the plain relu variant, `-max()`
+    otherwise; `none` would be an exception (fix round: `2**self._min_exp` with a numpy integer
+    `_min_exp` used to raise `ValueError: Integers to negative integer powers are not allowed`;
+    no spelling of `bits` raises now) -/
 def qminForm (bf : NumForm) (c : Cfg) : Option Rat :=
   if c.relu then
-    (if c.negSlope = 0 then (if bf.npIntWidth.isSome then none else some (pow2 c.minExp))
-     else some (- qmaxForm bf c))
+    (if c.negSlope = 0 then some (pow2 c.minExp) else some (- qmaxForm bf c))
   else some (- qmaxForm bf c)
 
 /-- exact `floor(log2 x_input)` (`x_input = sqrt v` under quadratic approximation) -/
